@@ -22,7 +22,7 @@ def main():
         if a == '--tier':
             tier = sys.argv[i + 1]
     bad = 0
-    for f in sorted(glob.glob(os.path.join(d, '*.diff'))):
+    for f in sorted(glob.glob(os.path.join(os.path.abspath(d), '*.diff'))):
         s = scratch()
         try:
             p = subprocess.run(['patch', '-p1', '-s', '-i', f], cwd=s, stdout=subprocess.PIPE, stderr=subprocess.STDOUT, text=True)
